@@ -778,6 +778,12 @@ func lexSoyDocParam(l *lexer) {
 	// extract the param
 	for {
 		var r = l.next()
+		// (the comment may close right behind the name: "@param x*/")
+		if r == '*' && strings.HasPrefix(l.input[l.pos:], "/") {
+			l.pos--
+			l.emit(itemIdent)
+			break
+		}
 		if isSpaceEOL(r) || r == eof {
 			if r != eof {
 				l.pos--
